@@ -2,6 +2,7 @@ package checks
 
 import (
 	"fmt"
+	"math"
 	"math/big"
 	"math/rand"
 	"strings"
@@ -157,7 +158,11 @@ func c10NewPool(markIDs, recIDs []string) *c10Pool {
 	dnan := compact_float.QuietNaN()
 	p.nonkeys = []c10Sym{c10SymNK, mk(c10NONKEY, 0, ev.Event{K: ev.NAN}), mk(c10NONKEY, 0, ev.Event{K: ev.DFLOAT, DF: compact_float.DFloatValue(-1, 15)}),
 		mk(c10NONKEY, 0, ev.Event{K: ev.BFLOAT, BF: big.NewFloat(2.25)}), mk(c10NONKEY, 0, ev.Event{K: ev.BDFLOAT, BD: apd.New(31, -1)}),
-		mk(c10NONKEY, 0, ev.Event{K: ev.DFLOAT, DF: dnan}), mk(c10NONKEY, 0, ev.Event{K: ev.NAN, Flag: true})}
+		mk(c10NONKEY, 0, ev.Event{K: ev.DFLOAT, DF: dnan}), mk(c10NONKEY, 0, ev.Event{K: ev.NAN, Flag: true}),
+		// NaN and infinity handed over as a binary float / big decimal (the validator re-dispatches NaN; it is still one object)
+		mk(c10NONKEY, 0, ev.Event{K: ev.FLOAT, F: math.NaN()}), mk(c10NONKEY, 0, ev.Event{K: ev.FLOAT, F: math.Float64frombits(0x7ff0000000000001)}),
+		mk(c10NONKEY, 0, ev.Event{K: ev.FLOAT, F: math.Inf(-1)}), mk(c10NONKEY, 0, ev.Event{K: ev.BDFLOAT, BD: &apd.Decimal{Form: apd.NaN}}),
+		mk(c10NONKEY, 0, ev.Event{K: ev.DFLOAT, DF: compact_float.SignalingNaN()})}
 	p.arrs = []c10Sym{c10SymARR,
 		mk(c10ARR, 0, ev.Event{K: ev.ARR, AT: events.ArrayTypeBit, U: 3, B: []byte{5}}),
 		mk(c10ARR, 0, ev.Event{K: ev.ARR, AT: events.ArrayTypeUint16, U: 1, B: []byte{1, 2}}),
